@@ -96,6 +96,43 @@ def history(rng, role, names, length):
     return evs
 
 
+def multi_node(chk):
+    """several node objects with different local identities in one process, used in turn: every answer carries the
+    identity of the node that wrote it"""
+    from bromelia.base import DiameterMessage
+    idents = [("local.example", "local.realm"), ("second.example", "second.realm"), ("third.example", "local.realm")]
+    nodes = [psmdrv.Node("server", 1, local=i) for i in idents]
+    facs = []
+    for i in idents:
+        f = c06.Factory("server", 1)
+        facs.append(f)
+    order = [0, 1, 0, 2, 1, 2, 0]
+    hbh = 100
+    for k in order:
+        node, (host, realm) = nodes[k], idents[k]
+        node.reset()
+        # the peer's messages address this node: rebuild them with the peer's view of the local identity unchanged
+        for name in ("cer.ok", "dwr.ok", "dpr.ok"):
+            hbh += 1
+            m, _tok, _sid = facs[k].loaded(name, hbh, hbh + 7)
+            node.inject(m)
+            exc = node.tick()
+            out = node.take_emitted()
+            inp = {"op": "multi-node", "node": host, "request": name, "order": order}
+            chk.case(inp, kind="multi-node:%s" % name)
+            if exc not in (None, "stopped") or len(out) != 1:
+                chk.violation("a node among several in one process did not answer a base request", inp, "one answer", {"exc": exc, "answers": len(out)})
+                continue
+            a = out[0]
+            oh = [x.data for x in a.avps if int.from_bytes(x.code, "big") == 264]
+            orr = [x.data for x in a.avps if int.from_bytes(x.code, "big") == 296]
+            ids = (int.from_bytes(a.header.hop_by_hop, "big"), int.from_bytes(a.header.end_to_end, "big"))
+            if oh != [host.encode()] or orr != [realm.encode()] or ids != (hbh, hbh + 7):
+                chk.violation("an answer does not carry the identity of the node that wrote it (several nodes in one process)", inp,
+                              {"origin_host": host, "origin_realm": realm, "ids": [hbh, hbh + 7]},
+                              {"origin_host": str(oh), "origin_realm": str(orr), "ids": list(ids)})
+
+
 def run(chk):
     rng = random.Random(chk.seed)
     chk.lean = core.lean_build(["BromeliaVerif.Properties.C07"])
@@ -110,6 +147,7 @@ def run(chk):
                     "carries command and identifiers"]
     quick = chk.tier == "quick"
     c06.SEEN_CLAUSES.clear()
+    multi_node(chk)
     c06.explore(chk, rng, monitor, "sweep", quick, prop="C07", gen=history)
     c06.explore(chk, rng, monitor, "sweep-c06", quick, prop="C07", do_bfs=False)
 
